@@ -122,6 +122,25 @@ impl DerefMut for Ring {
     fn deref_mut(&mut self) -> &mut Ring { self.tag = !self.tag; self }
 }
 
+/// Probe with INHERENT `as_ref` / `as_mut` that point at `a`, while its `AsRef<u32>` / `AsMut<u32>` impls point at `b`:
+/// a forwarded body written in method-call syntax would silently pick the inherent ones.
+#[derive(Clone, Copy, Debug, PartialEq, Eq)]
+#[cfg_attr(kani, derive(kani::Arbitrary))]
+pub struct Sly {
+    pub a: u32,
+    pub b: u32,
+}
+impl Sly {
+    pub fn as_ref(&self) -> &u32 { &self.a }
+    pub fn as_mut(&mut self) -> &mut u32 { &mut self.a }
+}
+impl AsRef<u32> for Sly {
+    fn as_ref(&self) -> &u32 { &self.b }
+}
+impl AsMut<u32> for Sly {
+    fn as_mut(&mut self) -> &mut u32 { &mut self.b }
+}
+
 /// Probe collection: iterates `y` first, then `x`; its iterators record where they come from.
 #[derive(Clone, Copy, Debug, PartialEq, Eq)]
 #[cfg_attr(kani, derive(kani::Arbitrary))]
@@ -213,6 +232,7 @@ KINDS = {
     "refT": K("&'a T", "&'x Inner", "Inner", mk="&g{i}", val="*v.{f}", lt=True, gen="Inner"),
     "box": K("Box<Inner>", "Box<Inner>", "Inner", mk="Box::new(g{i})", val="*v.{f}"),
     "ring": K("Ring", "Ring", "Ring"),
+    "sly": K("Sly", "Sly", "Sly"),
     "arr": K("[u8; 3]", "[u8; 3]", "[u8; 3]"),
     "bag": K("Bag", "Bag", "Bag"),
     "Tarr": K("T", "[u8; 3]", "[u8; 3]", gen="[u8; 3]"),
@@ -661,7 +681,7 @@ pub fn post_iter_forms_agree(by_ref: &[Option<u8>; @L1@], by_mut: &[Option<u8>; 
 # AsRef / AsMut
 # ----------------------------------------------------------------------------------------------------------------
 XNAME = {"u32": "u32", "u16": "u16", "Inner": "inner", "InnerAlias": "alias", "T": "t", "&'a Inner": "refinner",
-         "&'a mut Inner": "mutinner", "Bag": "bag"}
+         "&'a mut Inner": "mutinner", "Bag": "bag", "Sly": "sly"}
 # types for which the probe `Inner` has a (non-decoy) AsRef/AsMut impl pointing into itself
 FWD_TYPES = ("u32", "u16")
 
@@ -697,7 +717,7 @@ def prog_asref(key, shape, kind, convs, struct_conv=None, muts=True, tys=None, f
         if conv == "":
             impls.append((i, fty, "identity", True))
         elif conv == "forward":
-            for x in FWD_TYPES:
+            for x in (("u32",) if fty == "Sly" else FWD_TYPES):
                 impls.append((i, x, "forwarded", True))
             if fty == "Inner":
                 impls.append((i, "Inner", "forwarded", False))   # blanket forward REACHES the decoy (AsRef only: it is pure)
@@ -862,6 +882,9 @@ def quick_programs():
     P.append(prog_deref("tuple", 1, 0, "attr", "struct", "ring"))
     P.append(prog_deref("tuple", 3, 2, "attr_ign", "struct", "inner"))
     P.append(prog_deref("named", 2, 0, "attr_ign", "struct", "box"))
+    # NON-forward Deref on a reference-typed field: Target is the reference type itself, r: &&Inner is the field's own storage
+    P.append(prog_deref("tuple", 1, 0, "sole", "no", "ref"))
+    P.append(prog_deref("named", 2, 1, "attr", "no", "mutref"))
     # Index / IndexMut
     P.append(prog_index("tuple", 1, 0, "sole", "inner"))
     P.append(prog_index("named", 2, 0, "attr", "inner"))
@@ -893,6 +916,13 @@ def quick_programs():
     P.append(asref_sel("tuple", 2, 1, "attr", "T", kind="T"))
     P.append(asref_sel("named", 2, 0, "attr", "u32", kind="T"))
     P += asref_sibling_programs(False)
+    # a skipped / ignored field BEFORE the kept one of the same type (tuple: the kept field's index is its position in the struct)
+    P.append(asref_sel("tuple", 2, 1, "skip", ""))
+    P.append(asref_sel("tuple", 3, 2, "ignore", ""))
+    P.append(asref_sel("named", 2, 1, "skip", ""))
+    # forwarded bodies must call the TRAIT method of the field type, not an inherent method of the same name
+    P.append(asref_sel("tuple", 2, 1, "attr", "u32", kind="sly"))
+    P.append(asref_struct("named", "forward", kind="sly"))
     return P
 
 
@@ -987,6 +1017,13 @@ def thorough_programs(seed):
     P.append(prog_asref("asref_n3_three_lists_inner", "named", "inner", ["u16", "InnerAlias", "u32"]))
     P.append(prog_asref("asref_t2_two_lists_T", "tuple", "T", ["u16", "u32"]))
     P += asref_sibling_programs(True)
+    for shape in shapes:
+        P.append(asref_struct(shape, "forward", kind="sly"))
+        P.append(asref_struct(shape, "u32", kind="sly"))
+        for n in (2, 3):
+            for sel in range(n):
+                P.append(asref_sel(shape, n, sel, "attr", "u32", kind="sly"))
+                P.append(asref_sel(shape, n, sel, "attr", "forward", kind="sly"))
     # random tail: extra configurations drawn with the seed (field kind x shape x selection)
     seen = {p.key for p in P}
     tail = []
